@@ -3,7 +3,7 @@ from sa.selftest.harness import M, T
 F = "sharepoint2text/parsing/extractors/util/omml_to_latex.py"
 OM = "sharepoint2text/parsing/extractors/util/omml_to_latex.py"
 MUTANTS = [
-    M("nary-get-without-default", F, 'chr_elem.get(f"{M_NS}val", "\\u2211")', 'chr_elem.get(f"{M_NS}val")', "C19-NULL"),
+    M("nary-get-without-default", F, 'chr_elem.get(f"{M_NS}val", "\\u222b")', 'chr_elem.get(f"{M_NS}val")', "C19-NULL"),
     M("delimiter-none", F, 'beg_chr.get(f"{M_NS}val", "(")', 'beg_chr.get(f"{M_NS}val")', "C19-NULL"),
     M("text-none", F, 'text = elem.text or ""', "text = elem.text", "C19-NULL"),
     M("frac-operand-twice", F, 'return f"\\\\frac{{{num_text}}}{{{den_text}}}"', 'return f"\\\\frac{{{num_text}}}{{{num_text}}}"', "C19-LIN"),
@@ -17,8 +17,16 @@ MUTANTS = [
     M("recursion-on-self", F, "            den_text = process_element(den)", "            den_text = process_element(elem)", "C19-REC"),
     M("consume-wrong-slice", F, "outside = converted[idx + 1 :]", "outside = converted[idx:]", "C19-LIN"),
     M("run-text-nfkc", OM, '            text = elem.text or ""\n', '            import unicodedata\n            text = unicodedata.normalize("NFKC", elem.text or "")\n', "C19-LIN"),
+    M("delimiter-chars-from-subtree", F, 'elem.find(f"{M_NS}dPr/{M_NS}begChr")', 'elem.find(f".//{M_NS}begChr")', "C19-LIN"),
+    M("accent-char-from-subtree", F, 'elem.find(f"{M_NS}accPr/{M_NS}chr")', 'elem.find(f".//{M_NS}chr")', "C19-LIN"),
+    M("nary-char-by-iter", F, 'chr_elem = elem.find(f"{M_NS}naryPr/{M_NS}chr")', 'chr_elem = next(elem.iter(f"{M_NS}chr"), None)', "C19-LIN"),
+    M("nary-default-sum", F, '                else "\\u222b"\n', '                else "\\u2211"\n', "C19-LIN"),
+    M("delimiter-default-bracket", F, 'if end_chr is not None else ")"', 'if end_chr is not None else "]"', "C19-LIN"),
+    M("docx-first-omath-only", "sharepoint2text/parsing/extractors/ms_modern/docx_extractor.py", "            for omath in elem.findall(M_OMATH):\n                latex = omml_to_latex(omath)\n                if latex.strip():\n                    parts.append(f\"$${latex}$$\")\n", "            omath = elem.find(M_OMATH)\n            if omath is not None:\n                latex = omml_to_latex(omath)\n                if latex.strip():\n                    parts.append(f\"$${latex}$$\")\n", "C19-LIN"),
+    M("pptx-first-omath-only", "sharepoint2text/parsing/extractors/ms_modern/pptx_extractor.py", "        for omath in omath_para.findall(M_OMATH):\n            omath_in_para.add(id(omath))\n            latex = omml_to_latex(omath)\n            if latex.strip():\n                formulas.append((latex, True))\n", "        omath = omath_para.find(M_OMATH)\n        if omath is not None:\n            omath_in_para.add(id(omath))\n            latex = omml_to_latex(omath)\n            if latex.strip():\n                formulas.append((latex, True))\n", "C19-LIN"),
 ]
 TWINS = [
+    T("delimiter-chars-via-own-dpr", F, '            beg_chr = elem.find(f"{M_NS}dPr/{M_NS}begChr")\n            end_chr = elem.find(f"{M_NS}dPr/{M_NS}endChr")\n', '            dpr = elem.find(f"{M_NS}dPr")\n            beg_chr = dpr.find(f"{M_NS}begChr") if dpr is not None else None\n            end_chr = dpr.find(f"{M_NS}endChr") if dpr is not None else None\n'),
     T("rename-operand", F, '            base = elem.find(f"{M_NS}e")\n            sup = elem.find(f"{M_NS}sup")\n            base_text = process_element(base)\n            sup_text = process_element(sup)\n            return f"{base_text}^{{{sup_text}}}"', '            b = elem.find(f"{M_NS}e")\n            s = elem.find(f"{M_NS}sup")\n            bt = process_element(b)\n            st = process_element(s)\n            return f"{bt}^{{{st}}}"'),
     T("concat-instead-of-fstring", F, 'return f"\\\\overline{{{content_text}}}"', 'return "\\\\overline{" + content_text + "}"'),
     T("inline-find", F, '            content = elem.find(f"{M_NS}e")\n            content_text = process_element(content)\n            return f"\\\\overline{{{content_text}}}"', '            content_text = process_element(elem.find(f"{M_NS}e"))\n            return f"\\\\overline{{{content_text}}}"'),
